@@ -260,6 +260,14 @@ def rule_keyword_compare(ctx):
                 elif isinstance(n, ast.Call) and isinstance(n.func, ast.Attribute) and n.func.attr in ("startswith", "endswith") \
                         and n.args and isinstance(n.args[0], ast.Constant) and isinstance(n.args[0].value, str):
                     sides = (n.func.value, [n.args[0].value], None)
+                elif isinstance(n, ast.Call) and (prog.dotted(m, n.func) or "") in ("re.search", "re.match", "re.fullmatch", "re.findall") \
+                        and len(n.args) >= 2 and isinstance(n.args[0], ast.Constant) and isinstance(n.args[0].value, str):
+                    # a keyword recognised by a regex: case-insensitive only with re.IGNORECASE / an inline (?i)
+                    flags = n.args[2] if len(n.args) > 2 else next((k.value for k in n.keywords if k.arg == "flags"), None)
+                    ci = (flags is not None and ("IGNORECASE" in norm(flags) or norm(flags).endswith("re.I"))) or n.args[0].value.startswith("(?i")
+                    words = re.sub(r"\\[A-Za-z]", " ", n.args[0].value)  # \b \s \w ... are not keyword letters
+                    if not ci:
+                        sides = (n.args[1], [words], None)
                 if not sides:
                     continue
                 e, consts, op = sides
